@@ -101,6 +101,17 @@ Theorem C07_requests_decided_with_own_record :
     end.
 Proof. exact decided_with_own_record. Qed.
 
+(* "Under every interleaving": the real accept is two separately scheduled steps; under every
+   exclusive schedule (with map deletes succeeding) it is indistinguishable from the ATOMIC
+   specification in which an accept looks the record up and consumes it in one indivisible step
+   ([spec_run]: Lookup = atomic accept, Remove = nothing): same decision context for every request,
+   same context for every connection. *)
+Theorem C07_two_step_accept_refines_atomic : forall h : list op,
+  exclusive h = true -> removes_ok h = true ->
+  outs init h = snd (spec_run init h) /\
+  forall c, ctx_in (final init h) c = ctx_in (fst (spec_run init h)) c.
+Proof. exact two_step_refines_atomic. Qed.
+
 (* The remove failure, honestly.  A failed remove is only logged: it changes neither the map nor
    any connection's context ... *)
 Theorem C07_remove_failure_is_logged_not_trusted : forall (s : state) (c c' : N) (x : option R),
@@ -132,6 +143,7 @@ Print Assumptions C07_ctx_only_own_record.
 Print Assumptions C07_ctx_is_own_record.
 Print Assumptions C07_ctx_none_without_record.
 Print Assumptions C07_requests_decided_with_own_record.
+Print Assumptions C07_two_step_accept_refines_atomic.
 Print Assumptions C07_remove_failure_is_logged_not_trusted.
 Print Assumptions C07_without_remove_ok_stale_record_inherited.
 
